@@ -65,7 +65,9 @@ def scalarAccepts (scalar : String) (v : Value) : Bool :=
     | "ID", .int _ => true
     | _, _ => false
   else
-    !v.hasVar
+    match v with
+    | .var _ => false
+    | _ => true
 
 /-- a literal where a scalar is expected -/
 def scalarLiteralOk (s : SchemaD) (w : IView) (v : Value) : Prop :=
